@@ -575,25 +575,34 @@ func (s *writer) getQueuedPackets() vlpersistence.PersistedPackets {
 
 	var m interface{}
 
+	// packetEncode returns nil for an expired or not encodable packet: such entry must not be persisted
 	for m = s.qos0Messages.Remove(); m != nil; m = s.qos0Messages.Remove() {
 		if s.offlineQoS0 {
-			packets.QoS0 = append(packets.QoS0, packetEncode(m))
+			if e := packetEncode(m); e != nil {
+				packets.QoS0 = append(packets.QoS0, e)
+			}
 		}
 	}
 
 	for m = s.qos12Messages.Remove(); m != nil; m = s.qos12Messages.Remove() {
-		packets.QoS12 = append(packets.QoS12, packetEncode(m))
+		if e := packetEncode(m); e != nil {
+			packets.QoS12 = append(packets.QoS12, e)
+		}
 	}
 
 	for m = s.pubrelMessages.Remove(); m != nil; m = s.pubrelMessages.Remove() {
 		if pkt, ok := m.(mqttp.IFace); ok {
-			packets.UnAck = append(packets.UnAck, packetEncode(&unacknowledged{pkt}))
+			if e := packetEncode(&unacknowledged{pkt}); e != nil {
+				packets.UnAck = append(packets.UnAck, e)
+			}
 		}
 	}
 
 	s.pubOut.messages.Range(func(k, v interface{}) bool {
 		if pkt, ok := v.(mqttp.IFace); ok {
-			packets.UnAck = append(packets.UnAck, packetEncode(&unacknowledged{pkt}))
+			if e := packetEncode(&unacknowledged{pkt}); e != nil {
+				packets.UnAck = append(packets.UnAck, e)
+			}
 			s.metric.OnSubUnAckSent(1)
 		}
 
